@@ -250,3 +250,32 @@ def _replay_remove_pop(model, contract):
 
 
 CONTRACTS["programs:ProgramSet.remove_pop#one_parameter_two_populations"]["replay_hook"] = _replay_remove_pop
+
+
+# ---- ProgramSet.remove_par / remove_comp (C16): what belongs to the removed item goes with it, everything else stays
+def _env_remove_par(it):
+    from pyvc.interp import PyObjV
+    from pyvc.core import Opaque
+    from pyvc import source
+
+    pm = source.load("programs")
+    prog = PyObjV("Program", pm, {"name": "prog", "target_pops": ["pop"], "target_comps": ["comp", "other_comp"]})
+    progset = PyObjV("ProgramSet", pm, {"programs": {"prog": prog}, "pars": {"par": None, "other_par": None}, "pops": {"pop": None, "other": None}, "comps": {"comp": None, "other_comp": None},
+                                         "covouts": {("par", "pop"): Opaque("a"), ("par", "other"): Opaque("b"), ("other_par", "pop"): Opaque("c")}})
+    return {"self": progset, "prog": prog, "name": "x"}
+
+
+CONTRACTS["programs:ProgramSet.remove_par#two_parameters_two_populations"] = dict(
+    schema=schema, make_env=_env_remove_par, ghost_params={"CODE": "const:'par'"}, stubs={"self._get_code_name(name)": "CODE"},
+    ensures=[
+        ("C16.parameter_and_all_its_outcomes_are_gone", "'par' not in self.pars and all(k[0] != 'par' for k in self.covouts.keys())"),
+        ("C16.other_parameters_keep_their_outcomes", "'other_par' in self.pars and ('other_par', 'pop') in self.covouts and len(self.covouts) == 1 and len(self.pops) == 2"),
+    ],
+    defined_props=["C16"])
+CONTRACTS["programs:ProgramSet.remove_comp#two_compartments"] = dict(
+    schema=schema, make_env=_env_remove_par, ghost_params={"CODE": "const:'comp'"}, stubs={"self._get_code_name(name)": "CODE"},
+    ensures=[
+        ("C16.compartment_is_gone_from_the_program_set_and_the_targets", "'comp' not in self.comps and 'comp' not in prog.target_comps"),
+        ("C16.other_compartments_stay_targeted", "'other_comp' in self.comps and prog.target_comps == ['other_comp'] and len(self.covouts) == 3"),
+    ],
+    defined_props=["C16"])
